@@ -520,10 +520,12 @@ func c09Sharing(r *mon.Run) {
 				fa, fb := st.mk(), st.mk()
 				fa.Var().Id("v").Op("=").Id("send").Call(args...)
 				fa.Var().Id("w").Op("=").Index().Interface().Values(args...)
+				fa.Var().Id("t").Id("G").Types(args...)
 				cp := fresh()
 				copy(cp, snapshot)
 				fb.Var().Id("v").Op("=").Id("send").Call(cp...)
 				fb.Var().Id("w").Op("=").Index().Interface().Values(append([]jen.Code(nil), cp...)...)
+				fb.Var().Id("t").Id("G").Types(append([]jen.Code(nil), cp...)...)
 				if outHash(fa) != outHash(fb) {
 					r.Violate("shared-code-renders-by-other-file", c, "an argument slice (nil entries in front of real items) shared by the list constructs of several Files: File #%d (%s) renders differently from the same File built from a private copy of the slice", j, st.name)
 					break
